@@ -40,7 +40,28 @@ class Slice(object):
         return name in self.attr_names() or name in self.call_names()
 
 
-def backward_slice(fi, expr, at=None, max_steps=4000):
+def _positional(v, kind, i):
+    """the i-th component of an unpacked value where it is syntactically
+    apparent: a tuple display, or the i-th argument of a zip(...) that is
+    iterated over"""
+    if kind == 'for':
+        if isinstance(v, ast.Call) and isinstance(v.func, ast.Name) \
+                and v.func.id == 'zip' and not v.keywords \
+                and i < len(v.args) and not any(
+                    isinstance(a, ast.Starred) for a in v.args):
+            return v.args[i]
+        if isinstance(v, ast.Call) and isinstance(v.func, ast.Name) \
+                and v.func.id == 'enumerate' and len(v.args) == 1 \
+                and i == 1:
+            return v.args[0]
+        return v
+    if isinstance(v, (ast.Tuple, ast.List)) and i < len(v.elts) \
+            and not any(isinstance(a, ast.Starred) for a in v.elts):
+        return v.elts[i]
+    return v
+
+
+def backward_slice(fi, expr, at=None, max_steps=4000, positional=False):
     cfg = cfg_of(fi)
     rd = rd_of(fi)
     out = Slice()
@@ -90,7 +111,11 @@ def backward_slice(fi, expr, at=None, max_steps=4000):
                     if d.kind == 'param':
                         out.params.add(d.name)
                     elif d.value is not None:
-                        work.append((d.value, d.node))
+                        v = d.value
+                        if positional and d.path and isinstance(
+                                d.path[0], int):
+                            v = _positional(v, d.kind, d.path[0])
+                        work.append((v, d.node))
                 # container mutations of this name
                 for (mn, astn, how) in mut_index.get(sub.id, []):
                     if mn not in rd.live:
